@@ -119,7 +119,7 @@ package server
 //@ macro keyTarget(s *Server, k string) *config.KeyConfig = ite(s.Config.Keys[k].Alias == "", s.Config.Keys[k], s.Config.Keys[s.Config.Keys[k].Alias])
 //@ macro mayUse(u authmodel.UserInfo, kc *config.KeyConfig) bool = purecallb("invoke github.com/sassoftware/relic/v8/internal/authmodel.UserInfo.Allowed", u, kc)
 //@ macro listed(s *Server, u authmodel.UserInfo, k string) bool = inmap(s.Config.Keys, k) && !s.Config.Keys[k].Hide && \
-//@        keyTarget(s, k) != nil && !keyTarget(s, k).Hide && mayUse(u, keyTarget(s, k))
+//@        keyTarget(s, k) != nil && !keyTarget(s, k).Hide && keyTarget(s, k).Token != "" && mayUse(u, keyTarget(s, k))
 //@
 //@ func (*Server).serveListKeys
 //@   property C04
